@@ -11,7 +11,7 @@ ENGINE = 'seq'
 TECHNIQUE = 'runtime monitoring: generated create/assign/read histories against a per-instance dictionary model; concurrent reader/writer cases under a deterministic cooperative scheduler (opcode-level yield points), partly enumerated systematically (delay-bounded)'
 RULE = ('generated classes using MetaThreadSafeAttributes (1-4 attributes, optional subclass adding attributes, via the metaclass directly '
         'or via miros.ThreadSafeAttributes), 2-5 instances created at random points (now and then an instance dies and a new one is created in its place, typically at the recycled address; some instances are made by copy.copy of another one and must be independent from then on), histories of plain assignment, augmented assignment '
-        '(+=, -=, *=) and reads; the statements are real source lines of a generated module (the descriptor inspects its caller\'s source). '
+        '(+=, -=, *=), reads and statements that touch TWO instances (objs[i].a += objs[j].a; a read of one instance on a comparison line followed by an assignment to another; an augmented assignment whose right-hand side raises, followed by an assignment to another instance); the statements are real source lines of a generated module (the descriptor inspects its caller\'s source). '
         'After every statement every attribute of every instance is read and compared with a per-instance dictionary model (fresh '
         'instance reads 0). Every fifth case is concurrent: 2-4 instances hold values from disjoint ranges (plus one never-assigned '
         'instance), 2-4 real threads read any instance and assign / += only their own one, under detsched with a yield point at every '
@@ -22,7 +22,7 @@ RULE = ('generated classes using MetaThreadSafeAttributes (1-4 attributes, optio
 CASES = {'quick': 1500, 'thorough': 100000}
 BUDGET = {'quick': 150, 'thorough': 600}
 REQUIRE = {'statements': 10000, 'reads_compared': 50000, 'fresh_instance_reads': 2000, 'subclass_cases': 100,
-           'concurrent_runs': 150, 'concurrent_reads_of_foreign_instance': 300, 'switch_inside_descriptor': 100, 'instances_replaced_by_new_ones': 1000, 'instances_made_by_shallow_copy': 500, 'systematic_schedules': 500, 'systematic_scenarios_exhausted': 2}
+           'concurrent_runs': 150, 'concurrent_reads_of_foreign_instance': 300, 'switch_inside_descriptor': 100, 'instances_replaced_by_new_ones': 1000, 'instances_made_by_shallow_copy': 500, 'systematic_schedules': 500, 'systematic_scenarios_exhausted': 2, 'statements_touching_two_instances': 400}
 ASSUME = ['lost updates / errors / deadlocks on ONE shared instance are C27; the concurrent cases here let only the owner thread write an instance', 'one statement per source line']
 ANNOUNCE_CASES = True
 
@@ -155,7 +155,7 @@ def run_case(ctx, n):
     lines += ['class K(ThreadSafeAttributes):', '  _attributes = %r' % attrs, '']
   if sub:
     lines += ['class S(K):', '  _attributes = %r' % (attrs + sub_attrs), '']
-  lines += ['def run(probe):', '  objs = {}']
+  lines += ['def boom():', '  return 1 // 0', '', 'def run(probe):', '  objs = {}']
   model = {}
   ops_used = set()
   stmts = []
@@ -165,6 +165,7 @@ def run_case(ctx, n):
   nst = rng.randint(8, 40)
   body = []
   hist = []
+  two = [0]
   for k in range(nst):
     if created >= 2 and rng.random() < 0.12:
       # an instance dies and a NEW one takes its slot (CPython usually gives it the recycled address): it must read 0
@@ -200,9 +201,32 @@ def run_case(ctx, n):
         op = rng.choice(['+=', '-=', '*='])
         body.append('  objs[%d].%s %s %d' % (i, a, op, v))
         hist.append(('aug', i, a, op, v))
-      else:
+      elif r < 0.93 or created < 2:
         body.append('  _ = objs[%d].%s' % (i, a))
         hist.append(('read', i, a))
+      else:
+        # statements that touch TWO instances: the write must land in the instance the statement names
+        j = rng.choice([x for x in range(created) if x != i])
+        cls_j = next(h[2] for h in reversed(hist) if h[0] in ('create', 'copy') and h[1] == j)
+        common = [x for x in attrs + (sub_attrs if cls_i == 'S' and cls_j == 'S' else [])]
+        a = rng.choice(common)
+        kind = rng.choice(['aug-from-other', 'compare-then-set-other', 'failed-aug-then-set-other'])
+        if kind == 'aug-from-other':
+          op = rng.choice(['+=', '-='])
+          body.append('  objs[%d].%s %s objs[%d].%s' % (i, a, op, j, a))
+          hist.append(('augx', i, a, op, j))
+        elif kind == 'compare-then-set-other':
+          body.append('  _ = objs[%d].%s >= 3' % (i, a))
+          body.append('  objs[%d].%s = %d' % (j, a, v))
+          hist.append(('set', j, a, v))
+        else:
+          body.append('  try:')
+          body.append('    objs[%d].%s += boom()' % (i, a))
+          body.append('  except ZeroDivisionError:')
+          body.append('    pass')
+          body.append('  objs[%d].%s = %d' % (j, a, v))
+          hist.append(('set', j, a, v))
+        two[0] += 1
     body.append('  probe(%d, objs)' % k)
   lines += body
   SEQ[0] += 1
@@ -229,6 +253,9 @@ def run_case(ctx, n):
       ctx.count('fresh_instance_reads', len(model[h[1]]))
     elif h[0] == 'set':
       model[h[1]][h[2]] = h[3]
+    elif h[0] == 'augx':
+      cur, other = model[h[1]][h[2]], model[h[4]][h[2]]
+      model[h[1]][h[2]] = cur + other if h[3] == '+=' else cur - other
     elif h[0] == 'aug':
       cur = model[h[1]][h[2]]
       model[h[1]][h[2]] = {'+=': cur + h[4], '-=': cur - h[4], '*=': cur * h[4]}[h[3]]
@@ -255,6 +282,7 @@ def run_case(ctx, n):
     ctx.count('subclass_cases')
   ctx.count('instances_replaced_by_new_ones', replaced)
   ctx.count('instances_made_by_shallow_copy', copies)
+  ctx.count('statements_touching_two_instances', two[0])
   ctx.distinct((2 if sub else 1, nattr + len(sub_attrs), created, nst, tuple(sorted(ops_used))))
   if state['bad']:
     ctx.violation(state['bad'][0], state['bad'][1], wit)
